@@ -59,11 +59,23 @@ def dump_desc(desc, path, fmt):
             yaml.safe_dump(desc, fh, sort_keys=False)      # escapes (allow_unicode would write NEL / LS / PS raw, which YAML folds)
 
 
+# file names a project may well use: characters that mean something to a shell, to glob, to argparse, to a URL or suffix parser
+ODD_STEMS = ["@", "@[1]", "@ x", "@.v2", "-@", "@*", "@?", "{@}", "#@", "@ń€", "@.yaml", "@.suit"]
+
+
+def odd_name(stem_hint: str, ext: str, salt) -> str:
+    """<odd stem>.<ext> chosen by the content hash (deterministic); upper-case extension for one in seven"""
+    h = core.h8("odd-name", stem_hint, salt)
+    stem = ODD_STEMS[h % len(ODD_STEMS)].replace("@", stem_hint)
+    return f"{stem}.{ext.upper() if h % 7 == 3 else ext}"
+
+
 def tool_create_main(desc, d, fmt="json") -> bytes:
     """cmd_create.main with a real description file."""
     from suit_generator import cmd_create
-    inp = os.path.join(d, f"in.{fmt}")
-    out = os.path.join(d, "out.suit")
+    salt = json.dumps(desc, sort_keys=True, default=str)[:4000]
+    inp = os.path.join(d, odd_name("in", fmt, salt))
+    out = os.path.join(d, odd_name("out", "suit", salt))
     dump_desc(desc, inp, fmt)
     prefill(out)
     cmd_create.main(input_file=inp, input_format="AUTO", output_file=out)
@@ -79,8 +91,8 @@ def tool_parse_obj(data: bytes):
 def tool_parse_main(data: bytes, d, fmt="yaml", hierarchy=False):
     """cmd_parse.main through files; returns the text of the description file."""
     from suit_generator import cmd_parse
-    inp = os.path.join(d, "p_in.suit")
-    out = os.path.join(d, f"p_out.{fmt}")
+    inp = os.path.join(d, odd_name("p_in", "suit", data))
+    out = os.path.join(d, odd_name("p_out", fmt, data))
     with open(inp, "wb") as fh:
         fh.write(data)
     prefill(out)
